@@ -185,3 +185,23 @@ impl<V> DotBuilder for SchemeMatcher<V> {
         Some(node_name)
     }
 }
+
+#[cfg(feature = "verif")]
+impl<T> SchemeMatcher<T> {
+    /// Canonical (sorted) rendering of the matcher state (verification hook)
+    pub fn verif_snapshot(&self) -> String {
+        let mut schemes: Vec<String> = self
+            .schemes
+            .iter()
+            .map(|(scheme, matcher)| format!("{scheme:?}=>{}", matcher.verif_snapshot()))
+            .collect();
+        schemes.sort();
+
+        format!(
+            "SC{{count:{},any:{},schemes:[{}]}}",
+            self.count,
+            self.any_scheme.verif_snapshot(),
+            schemes.join(",")
+        )
+    }
+}
